@@ -81,7 +81,7 @@ HistNext ==
                                   -> [hist EXCEPT !.reads = Append(@, out'.line)]
               [] OTHER            -> hist
 
-Run == st = "run" /\ Next /\ HistNext /\ UNCHANGED st
+Run == st = "run" /\ Next /\ HistNext /\ UNCHANGED <<st, files, level>>
 
 PNext == Pick \/ Run
 Spec == Init /\ [][PNext]_pvars
